@@ -425,6 +425,26 @@ Section Inv.
     apply safe_write; [exact HI' | exists b; split; [exact Hib | reflexivity] | discriminate].
   Qed.
 
+  (* sow_samples on a crop that has results (repair D39): the earlier results are unlinked first, then sown anew *)
+  Lemma dirs_run_unlinks (xs : list fname) : forall st, dirs (run (map Unlink xs) st) = dirs st.
+  Proof.
+    induction xs as [|x xs IH]; intros st; [reflexivity|]. unfold run. cbn [map fold_left].
+    change (fold_left apply (map Unlink xs) (apply st (Unlink x))) with (run (map Unlink xs) (apply st (Unlink x))).
+    rewrite IH. reflexivity.
+  Qed.
+  Lemma resow_safe st ids w : Inv st -> safe_from st (resow_samples_steps st ids sw w).
+  Proof.
+    intros HI. unfold resow_samples_steps.
+    rewrite <- (map_map (fun i => Fin (BResult i)) Unlink ids).
+    set (xs := map (fun i => Fin (BResult i)) ids).
+    assert (Hh : Forall harmless (map Unlink xs)).
+    { subst xs. rewrite map_map. apply Forall_forall. intros s Hs. apply in_map_iff in Hs as (i & <- & _). cbn. discriminate. }
+    apply safe_app; [apply safe_harmless; assumption|].
+    assert (Hs : sow_steps st sw w = sow_steps (run (map Unlink xs) st) sw w).
+    { unfold sow_steps, mkdir_steps, has_dir. rewrite dirs_run_unlinks. reflexivity. }
+    rewrite Hs. apply sow_safe. apply safe_end with (ss := map Unlink xs). apply safe_harmless; assumption.
+  Qed.
+
   Lemma grow_block_safe st0 w i : Inv st0 -> forall st, Inv st -> safe_from st (grow_steps f st0 w i).
   Proof.
     intros H0 st HI. unfold grow_steps. destruct (has_dir st0 DRes); [|apply safe_nil, HI].
@@ -1019,7 +1039,8 @@ Section Reach.
   | r_base : reachable base_state
   | r_op st o k : reachable st -> valid_op sw kd st o -> reachable (crash (steps_of f o st) k st)
   | r_recover st w delf k : reachable st -> (forall s, Permutation (delf s) (del_canon s)) ->
-      reachable (crash (recover_steps f kd sw w delf st) k st).
+      reachable (crash (recover_steps f kd sw w delf st) k st)
+  | r_resow st ids w k : reachable st -> reachable (crash (resow_samples_steps st ids sw w) k st).
 
   Lemma base_inv : Inv f sw kd old base_state.
   Proof.
@@ -1040,10 +1061,11 @@ Section Reach.
 
   Theorem reachable_inv st : reachable st -> Inv f sw kd old st.
   Proof.
-    induction 1 as [|st o k _ IH Hv|st w delf k _ IH Hd].
+    induction 1 as [|st o k _ IH Hv|st w delf k _ IH Hd|st ids w k _ IH].
     - apply base_inv.
     - apply (op_safe f sw kd old no_conflict st o IH Hv).
     - apply (recover_safe f sw kd old no_conflict batches_nonempty w delf Hd st IH).
+    - apply (resow_safe f sw kd old st ids w IH).
   Qed.
 End Reach.
 
